@@ -59,6 +59,10 @@ lazyA
 
 [refA]: /url&#68;A "title&#69;A"
 
+[ÄΣ refA]: /foldA
+
+[äσ  REFa] [ÄΣ REFA][]
+
 [textA][refA] [refA][] [refA] ![imgA](/imgA&#70;.png "ititle&#71;A") <http://autoA.example/ä A>
 
 [destA](/dest&#65;A?q=&amp;x\_y&copy; "ti&#66;tle&reg;A\"") [emptyA]() [angleA](</a b&#72;> 'sq&#73;A')
@@ -110,6 +114,10 @@ lazyB
 
 [refB]: /url&#x64;B 'title&#x65;B'
 
+[ЖẞrefB]: /foldB
+
+[жßREFb] [ЖẞREFB][]
+
 [textB][refB] [refB][] [refB] ![imgB](/imgB&#x6a;.gif "ititle&#x6b;B") <https://autoB.example/ö B>
 
 [destB](/dest&#x61;B?q=&lt;x\*y&para; "ti&#x62;tle&deg;B\'") [emptyB]() [angleB](</b c&#x6c;> 'sq&#x6d;B')
@@ -138,9 +146,9 @@ TermB
 
 const (
 	// numeric references and escapes but no named entity: the entity table (21 k statements to build) is raced in S6
-	tiny1 = "a *b* [c](/d&#65;\\_ \"t&#66;\")\n"
-	tiny2 = "# e &#67;\n\n- f `g` [h](/i&#x68; 'u&#x69;')\n"
-	tiny3 = "> h &#74;\n\n1. i ![j](/k&#75;)\n"
+	tiny1 = "a *b* [c](/d&#65;\\_ \"t&#66;\") [Äx]\n\n[äX]: /f1\n"
+	tiny2 = "# e &#67;\n\n- f `g` [h](/i&#x68; 'u&#x69;') [Жy][]\n\n[жY]: /f2\n"
+	tiny3 = "> h &#74;\n\n1. i ![j](/k&#75;) [Σz]\n\n[σZ]: /f3\n"
 	warm  = "warm *up* &amp; [x](/y) `z`\n\n| a |\n|---|\n| b |\n"
 	ent1  = "&amp; x &copy;\n"
 	ent2  = "[a](/u?&para;=1 \"&reg;\")\n"
